@@ -33,7 +33,14 @@
  *        The receivers are started one after the other (in every `multi` op, so that nothing depends on how
  *        the threads happen to be scheduled); with `uA:B` A is started first and parked after its first
  *        umask() call, then B likewise, then A continues, then B.
+ *        RACE `e`: a connection whose chunks are exhausted is shut down at once and the feeder waits until its receiver
+ *        has RETURNED from pcp_server() before it hands out the next chunk: one target of rpdcp finishes while the
+ *        others are still delivering (whatever a receiver undoes on its way out hits the others in mid-copy).
  *        answer: rc= sig= san= to=<0|1> parked=<0|1> r0=<hex replies of connection 0> r1=... err=<hex tail>
+ *
+ *   resp N STREAMHEX
+ *        child: the real pcp_response() of pcp_client.c called exactly N times on a file holding STREAM (the bytes a
+ *        receiver wrote: NUL / `\01` + text + newline); answer: res=<per call 0 | 1 (= -1)> left=<bytes unread>
  *
  * The chroot confines every experiment (hostile names such as ../../x) to the per-case jail directory,
  * and makes the jail the root of the model's file system.
@@ -649,7 +656,7 @@ static int wait_quiet(conn_t *cs, int k, int i, int want_finished, const struct 
 }
 
 static void multi_child(const char *jail, const char *cwd, int p, int y, int um, conn_t *cs, int k, int resfd,
-                        int errfd, int ra, int rb, int ua, int ub)
+                        int errfd, int ra, int rb, int ua, int ub, int early)
 {
     struct timespec t0;
     int to = 0, maxch = 0, was_parked = 0, base_b = -1;
@@ -694,6 +701,13 @@ static void multi_child(const char *jail, const char *cwd, int p, int y, int um,
     }
     for (int j = 0; j < maxch && !to; j++)
         for (int i = 0; i < k && !to; i++) {
+            if (early && j == cs[i].nchunks && !__atomic_load_n(&cs[i].finished, __ATOMIC_SEQ_CST)) {
+                /* RACE `e`: a target that has delivered everything closes its connection NOW; its receiver returns
+                   from pcp_server() while the receivers of the other targets are still being fed */
+                shutdown(cs[i].pfd, SHUT_WR);
+                if (wait_quiet(cs, k, i, 1, &t0, MULTI_LIMIT_MS) < 0) to = 1;
+                continue;
+            }
             if (j >= cs[i].nchunks || __atomic_load_n(&cs[i].finished, __ATOMIC_SEQ_CST))
                 continue;
             size_t off = 0;
@@ -759,9 +773,11 @@ static void op_multi(char *rest)
         for (char *q = strtok(ch, ","); q; q = strtok(NULL, ","))
             cs[i].chunks[cs[i].nchunks] = (char *) unhex(q, &cs[i].clen[cs[i].nchunks]), cs[i].nchunks++;
     }
-    int ra = -1, rb = -1, ua = -1, ub = -1;
+    int ra = -1, rb = -1, ua = -1, ub = -1, early = 0;
     char *race = tok(&rest);
-    if (race && race[0] == 'u' && sscanf(race + 1, "%d:%d", &ua, &ub) == 2) {
+    if (race && race[0] == 'e' && race[1] == 0)
+        early = 1;
+    else if (race && race[0] == 'u' && sscanf(race + 1, "%d:%d", &ua, &ub) == 2) {
         if (ua < 0 || ub < 0 || ua >= k || ub >= k || ua == ub) { printf("bad-op\n"); return; }
     } else if (race && sscanf(race, "%d:%d", &ra, &rb) == 2) {
         if (ra < 0 || rb < 0 || ra >= k || rb >= k || ra == rb) { printf("bad-op\n"); return; }
@@ -774,7 +790,7 @@ static void op_multi(char *rest)
     pid_t pid = fork();
     if (pid == 0) {
         close(pres[0]); close(perr[0]);
-        multi_child(jail, cwd, atoi(ps), atoi(ys), (int) strtol(ums, NULL, 8), cs, k, pres[1], perr[1], ra, rb, ua, ub);
+        multi_child(jail, cwd, atoi(ps), atoi(ys), (int) strtol(ums, NULL, 8), cs, k, pres[1], perr[1], ra, rb, ua, ub, early);
     }
     close(pres[1]); close(perr[1]);
     set_nb(pres[0]); set_nb(perr[0]);
@@ -801,6 +817,40 @@ static void op_multi(char *rest)
     free(cs); free(a.log.p); free(errlog.p);
 }
 
+/* ---- the client's reply reader alone ------------------------------------------------------- */
+static void op_resp(char *rest)
+{
+    char *ns = tok(&rest), *shex = tok(&rest);
+    if (!shex) { printf("bad-op\n"); return; }
+    int n = atoi(ns);
+    size_t len;
+    if (n < 0 || n > 64) { printf("bad-op\n"); return; }
+    unsigned char *s = unhex(shex, &len);
+    fflush(stdout);
+    pid_t pid = fork();
+    if (pid == 0) {
+        char name[] = "/tmp/pcp_resp_XXXXXX";
+        char res[65];
+        int fd = mkstemp(name);
+        if (fd < 0) _exit(97);
+        unlink(name);
+        if (len && write(fd, s, len) != (ssize_t) len) _exit(97);
+        lseek(fd, 0, SEEK_SET);
+        int nul = open("/dev/null", O_WRONLY);
+        if (nul >= 0) dup2(nul, 2);
+        for (int i = 0; i < n; i++)
+            res[i] = pcp_response(fd, "h") == 0 ? '0' : '1';
+        res[n] = 0;
+        off_t pos = lseek(fd, 0, SEEK_CUR);
+        dprintf(1, "res=%s left=%ld\n", n ? res : "-", (long) len - (long) pos);
+        _exit(0);
+    }
+    int rc, sig;
+    reap(pid, &rc, &sig);
+    if (rc != 0 || sig != 0) printf("crash rc=%d sig=%d\n", rc, sig);
+    free(s);
+}
+
 int main(int argc, char **argv)
 {
     char *line = NULL;
@@ -820,6 +870,7 @@ int main(int argc, char **argv)
         if (!strcmp(op, "sink")) op_sink(rest);
         else if (!strcmp(op, "rt")) op_rt(rest);
         else if (!strcmp(op, "multi")) op_multi(rest);
+        else if (!strcmp(op, "resp")) op_resp(rest);
         else printf("bad-op\n");
         fflush(stdout);
     }
